@@ -23,14 +23,14 @@ import (
 
 const (
 	FNone        uint32 = 0
-	FGetEnoent   uint32 = 1 // natural: the name is absent on this disk right now
-	FGetEIO      uint32 = 2 // injected: Get/Open fails
-	FReadEIO     uint32 = 3 // injected: reader fails after A bytes
-	FReadShort   uint32 = 4 // injected: reader delivers A bytes per Read call
-	FWriteEIO    uint32 = 5 // injected: writer returns (0, err) and stays broken
-	FWriteShort  uint32 = 6 // injected: writer returns (n<len, err) and stays broken
-	FExecErr     uint32 = 7 // injected: context call-back returns an error
-	FExecErrP2   uint32 = 8 // injected: call-back returns a *pongo2.Error
+	FGetEnoent   uint32 = 1  // natural: the name is absent on this disk right now
+	FGetEIO      uint32 = 2  // injected: Get/Open fails
+	FReadEIO     uint32 = 3  // injected: reader fails after A bytes
+	FReadShort   uint32 = 4  // injected: reader delivers A bytes per Read call
+	FWriteEIO    uint32 = 5  // injected: writer returns (0, err) and stays broken
+	FWriteShort  uint32 = 6  // injected: writer returns (n<len, err) and stays broken
+	FExecErr     uint32 = 7  // injected: context call-back returns an error
+	FExecErrP2   uint32 = 8  // injected: call-back returns a *pongo2.Error
 	FExecPanic   uint32 = 9  // injected: call-back panics (caller code dies in the middle of an execution)
 	FGetPanic    uint32 = 10 // injected: the loader panics inside Get (caller code dies in the middle of a load)
 	faultKindMax        = 11
@@ -138,20 +138,21 @@ type OpStamp struct {
 
 // per-goroutine mutable scratch (task-local, or the world's own in direct mode)
 type local struct {
-	curOp     int
-	serve     Reply // decision for the Get in flight
-	cbCount   int
-	writeSeen int
-	retained  []retainedBytes // results of earlier ExecuteBytes calls, still owned by the caller
+	nBytesResults int // ExecuteBytes results handed to this caller so far
+	curOp         int
+	serve         Reply // decision for the Get in flight
+	cbCount       int
+	writeSeen     int
+	retained      []retainedBytes // results of earlier ExecuteBytes calls, still owned by the caller
 }
 
 // ---------------------------------------------------------------------------------
 // World
 
 type World struct {
-	WriterKind int // which kind of io.Writer the caller hands in (see CallerWriter)
-	Sched *Sched // nil: direct mode only
-	disks []*disk
+	WriterKind int    // which kind of io.Writer the caller hands in (see CallerWriter)
+	Sched      *Sched // nil: direct mode only
+	disks      []*disk
 
 	Plan       []FaultSpec
 	Healed     bool
